@@ -715,7 +715,7 @@ def mon_compute_features(result, pre, *a, **k):
         fek_eff = fek if fek is not None else {'filter_kwargs': {'n_cycles': 3}}
         check_rows_against_reference(df, sig, args['fs'], args['f_range'], center, fek_eff,
                                      'compute_features')
-        check_shape(df, sig, args['fs'], args['f_range'], 3, 'compute_features', with_band_amp=False)
+        check_shape(df, sig, args['fs'], args['f_range'], 3, 'compute_features', with_band_amp=True)      # three cycles: the documented band_amp filter of compute_features, whatever the burst options say
     if 'is_burst' not in df.columns:
         violation('C01', 'missing-column', 'is_burst missing from compute_features table')
         return
